@@ -706,6 +706,37 @@ theorem ruleCanonOrder_sound {addK : OpK} {ground : Ex R → Option Nat} (haddK 
     · exact absurd h (by simp)
   · exact absurd h (by simp)
 
+/-- **`canonOrder_perm`**: the canonical-order pass returns a PERMUTATION of the operand LIST — the
+    multiset of operands (repetitions included), the operators and the reduced variables are unchanged. -/
+theorem canonOrder_perm {addK : OpK} {ground : Ex R → Option Nat} {red bin : OpK} {vars : List Name}
+    {ts : List (Ex R)} {t' : Ex R} (h : ruleCanonOrder addK ground (.contr red bin vars ts) = some t') :
+    ∃ ts', t' = .contr red bin vars ts' ∧ ts'.Perm ts := by
+  unfold ruleCanonOrder at h
+  split at h
+  · rename_i red' bin' vars' a b heq
+    simp only [Ex.contr.injEq] at heq
+    obtain ⟨rfl, rfl, rfl, rfl⟩ := heq
+    split at h
+    · split at h
+      · simp only [Option.some.injEq] at h
+        exact ⟨[b, a], h.symm, List.Perm.swap a b []⟩
+      · exact absurd h (by simp)
+    · exact absurd h (by simp)
+  · exact absurd h (by simp)
+
+/-- **A canonical-order pass over a SET of operands is unsound**: `f ⊗ f` with the two operands the same
+    (interned) term and `⊗` not idempotent (`ops.add` in the tropical / log semirings, `mul` here).
+    Keeping the operand once turns `f ⊗ f = 4` into `f = 2` (seeded defect C08_9); the list-based pass is a
+    permutation (`canonOrder_perm`) and preserves the value (`ruleCanonOrder_sound`, `contr_perm_sound`). -/
+theorem canonOrder_by_set_witness :
+    let size : Name → Nat := fun _ => 1
+    let f : Ex Nat := .leaf [] (fun _ => 2)
+    let t : Ex Nat := .contr .null .mul [] [f, f]
+    ∃ t₂, canonOrderBySet (fun _ _ => true) t = some t₂
+      ∧ ruleCanonOrder .mul (fun _ => some 3) t = none
+      ∧ t.eval (sr Nat) size (fun _ => 0) = 4 ∧ t₂.eval (sr Nat) size (fun _ => 0) = 2 :=
+  ⟨_, rfl, rfl, by decide, by decide⟩
+
 /-! ## the cascade and normal forms -/
 
 /-- Iterating any sound root rewrite is sound. -/
